@@ -456,6 +456,11 @@ class SctpClient(TcpClient,SctpConnection):
         except Exception as e:
             tcp_client.exception(f"client_errors: {e.args}")
 
+            #: The connection did not come up (refused, timed out): nobody
+            #: is going to use, or close, this socket.
+            if self.sock is not None:
+                self.sock.close()
+
 
 class TcpServer(TcpConnection):
     def __init__(self, ip_address: str, port: str) -> None:
